@@ -334,18 +334,15 @@ impl ServiceDiscoveryExecutor {
     async fn query_service_instances(&self) -> Result<(), SimpleMdnsError> {
         log::trace!("probing service instances");
         let mut packet = Packet::new_query(0);
-        packet.questions.push(Question::new(
-            self.service_name.clone(),
-            TYPE::SRV.into(),
-            CLASS::IN.into(),
-            false,
-        ));
-        packet.questions.push(Question::new(
-            self.service_name.clone(),
-            TYPE::TXT.into(),
-            CLASS::IN.into(),
-            false,
-        ));
+        // addresses are asked for explicitly: as additional records they only come with an SRV answer
+        for qtype in [TYPE::SRV, TYPE::TXT, TYPE::A, TYPE::AAAA] {
+            packet.questions.push(Question::new(
+                self.service_name.clone(),
+                qtype.into(),
+                CLASS::IN.into(),
+                false,
+            ));
+        }
 
         self.sender_socket
             .send_to(
